@@ -70,7 +70,11 @@ where
             CaseOutcome::Fail { key, .. } => key.clone(),
             _ => unreachable!(),
         };
-        let shrunk = pt::shrink_nth(seed, i, &mk(), |v| matches!(eval(v), CaseOutcome::Fail { key, .. } if key == key0), 120);
+        // a failure that takes seconds to evaluate (a child that had to be killed) gets a small shrinking budget
+        let t_eval = std::time::Instant::now();
+        let _ = eval(&values[i]);
+        let budget = if t_eval.elapsed().as_millis() > 3000 { 6 } else { 120 };
+        let shrunk = pt::shrink_nth(seed, i, &mk(), |v| matches!(eval(v), CaseOutcome::Fail { key, .. } if key == key0), budget);
         match eval(&shrunk) {
             CaseOutcome::Fail { key, what, replay } => {
                 seen.insert(key.clone());
